@@ -2,6 +2,8 @@ import Driver.Mgr
 import Driver.Table
 import Driver.Expr
 import Driver.OptD
+import Driver.MadxD
+import Driver.LinD
 /-! `xdriver <suite>`: one JSON object per input line, one JSON object per output line. -/
 open Lean
 
@@ -45,11 +47,29 @@ partial def loopOpt (h : IO.FS.Stream) (out : IO.FS.Stream) (n : Nat) : IO Unit 
   | .ok j => out.putStrLn ((DOpt.step j).setObjVal! "n" n).compress
   loopOpt h out (n+1)
 
+partial def loopMadx (h : IO.FS.Stream) (out : IO.FS.Stream) (n : Nat) : IO Unit := do
+  let line ← h.getLine
+  if line.isEmpty then return ()
+  match Json.parse line with
+  | .error e => out.putStrLn (Json.mkObj [("n", n), ("bad-op", .str ("parse: " ++ e))]).compress
+  | .ok j => out.putStrLn ((DMadx.step j).setObjVal! "n" n).compress
+  loopMadx h out (n+1)
+
+partial def loopLin (h : IO.FS.Stream) (out : IO.FS.Stream) (n : Nat) : IO Unit := do
+  let line ← h.getLine
+  if line.isEmpty then return ()
+  match Json.parse line with
+  | .error e => out.putStrLn (Json.mkObj [("n", n), ("bad-op", .str ("parse: " ++ e))]).compress
+  | .ok j => out.putStrLn ((DLin.step j).setObjVal! "n" n).compress
+  loopLin h out (n+1)
+
 def main (args : List String) : IO UInt32 := do
   let stdin ← IO.getStdin
   let stdout ← IO.getStdout
   match args with
   | ["mgr"] => loopMgr stdin stdout Manager.MState.init 0; return 0
+  | ["lin"] => loopLin stdin stdout 0; return 0
+  | ["madx"] => loopMadx stdin stdout 0; return 0
   | ["opt"] => loopOpt stdin stdout 0; return 0
   | ["expr"] => loopExpr stdin stdout 0; return 0
   | ["table"] => loopTable stdin stdout DTable.emptyTbl 0; return 0
